@@ -315,7 +315,26 @@ def run(ctx):
              "forsys.forsys.ForSys.solve_pressure", "forsys.forsys.ForSys.__post_init__", "forsys.frames.Frame.__post_init__"]
     for r_ in roots:
         repo.func(r_)
-    reach = sorted(repo.reachable(roots))
+    # reachability under the claimed configuration: an edge is dropped when every call site of the callee in the caller is
+    # dominated by the positive test `if self.cm` (ForSys default cm=False, outside the claimed configuration - the same switch
+    # that exempts a rounding site below); a helper that is only ever entered from such a branch is as dead as the branch.
+    # A condition that merely mentions a switch (its negation, a test of its type) cuts nothing.
+    def dead_guard(e):
+        return T.attr(SELF, "cm") in e.conds()
+    cg = repo.callgraph()
+    reach, todo = set(), list(roots)
+    while todo:
+        q = todo.pop()
+        if q in reach or q not in cg:
+            continue
+        reach.add(q)
+        sq = sym.summarize(repo, q)
+        for t in cg[q]:
+            sites = [e for e in sq.events if e.kind == "call" and e.target in (t, t.rsplit(".", 1)[0])]
+            if sites and all(dead_guard(e) for e in sites):
+                continue
+            todo.append(t)
+    reach = sorted(reach)
     DIAGNOSTIC = {"rhs", "velocity_matrix", "velocity_matrix_dimensional"}
     n_round = 0
     live = []
@@ -355,7 +374,8 @@ def run(ctx):
                   "the velocity term (dimensionless, weight 0) rounded to >= 3 decimals",
                   f"`{fq.module.line(e.node.lineno)[:80]}` rounds a quantity on the inference path that is not the dimensionless velocity term: "
                   f"results would depend on the unit of length / the position of the origin")
-    ctx.count("CONST", "rounding sites on the inference closure", n_round, 8)
+    # the vacuity guard is on what was scanned, not on how many roundings exist: deleting a rounding never breaks the property
+    ctx.count("CONST", "functions on the inference closure scanned for roundings", len(reach), 60)
     ctx.ok("CONST", "closure / ROUND / scanned", "forsys/*", f"{len(reach)} functions reachable from build/solve entry points, {n_round} rounding sites, {len(live)} live")
 
     # ================================================================== tracking compares lengths with lengths
@@ -366,8 +386,10 @@ def run(ctx):
     D2, A2, _ = typers()
     D2.loop_init = sf.loop_init
     n = 0
-    for e in sf.events:
-        if e.kind == "call" and isinstance(e.fname, tuple) and e.fname[1] == "append" and e.loops():
+    merged = [e.value for e in sf.events if e.kind == "assign" and e.value[0] == "call" and e.value[1] == "numpy.concatenate" and not e.loops()]
+    feeds = {x[1] for m in merged for x in T.subterms(m) if x[0] in ("loopres", "lc")}
+    for e in rules.additions(sf):
+        if e.loops() and e.name in feeds:
             for c in e.conds():
                 if c[0] == "cmp" and c[1] in ("lt", "le"):
                     n += 1
